@@ -122,6 +122,8 @@ class Interp:
                 bi = t["target"]
             elif k == "switch":
                 d = self.operand(b, env, t["discr"])
+                if d == ("more?",):
+                    return self.index_loop(b, env, bi, t)
                 val = self.discr_value(d, [int(a[0]) for a in t["arms"]])
                 nxt = None
                 for a in t["arms"]:
@@ -178,6 +180,30 @@ class Interp:
                 raise Unknown("loop body returned %r for class %s" % (r, cls))
         return ("allset", frozenset(acc))
 
+    def index_loop(self, b, env, bi, t):
+        """`while i < bytes.len() { .. bytes[i] .. ; i += 1 }` at a position after the first: like tail_loop.  With no byte left (the false arm) the function must return true; with
+        one more byte of class C (the true arm, `bytes[i]` reading C) the body either returns false or comes back to this test."""
+        import copy as _copy
+        exit_t = ([a[1] for a in t["arms"] if int(a[0]) == 0] or [t["otherwise"]])[0]
+        body_t = ([a[1] for a in t["arms"] if int(a[0]) == 1] or [t["otherwise"]])[0]
+        if exit_t == body_t:
+            raise Unknown("index loop whose test does not branch")
+        r_none = self.exec_body(b, _copy.copy(env), start=exit_t)
+        if r_none is not True:
+            raise Unknown("an index loop over the remaining bytes that does not end with `true` when nothing is left (%r)" % (r_none,))
+        if "__rest" in env:
+            return LOOP          # (back at the test inside the summarised iteration)
+        acc = set()
+        for cls in self.classes:
+            e1 = _copy.copy(env)
+            e1["__rest"] = cls
+            r = self.exec_body(b, e1, start=body_t, stop_at=bi)
+            if r is LOOP:
+                acc.add(cls)
+            elif r is not False:
+                raise Unknown("index loop body returned %r for class %s" % (r, cls))
+        return ("allset", frozenset(acc))
+
     def discr_value(self, d, arm_values=()):
         if d is True:
             return 1
@@ -220,6 +246,19 @@ class Interp:
                     raise Unknown("field of %r" % (v,))
             elif p[0] == "downcast":
                 continue
+            elif p[0] == "index" and v == ("bytes",):
+                # `bytes[i]`: position 0 is the first character; any later position is "one of the remaining bytes" (only inside the summarised index loop)
+                iv = env.get(p[1])
+                if not (isinstance(iv, tuple) and iv[0] == "charconst"):
+                    raise Unknown("index %r into the validated string" % (iv,))
+                if iv[1] == 0:
+                    if self.first == "EMPTY":
+                        raise Unknown("first byte of the empty string")
+                    v = ("cls", self.first)
+                elif "__rest" in env:
+                    v = ("cls", env["__rest"])
+                else:
+                    raise Unknown("byte %d of the validated string outside a loop over the remaining bytes" % iv[1])
             elif p[0] == "cindex" and v == ("bytes",) and p[1] == 0 and not p[3]:
                 # slice pattern `[first, ..]` (reached only behind the pattern's own length test)
                 if self.first == "EMPTY":
@@ -298,15 +337,21 @@ class Interp:
                     return cmp_class_const(op, x[1], y[1])
                 if is_k(x) and is_cls(y):
                     return cmp_class_const({"Lt": "Gt", "Le": "Ge", "Gt": "Lt", "Ge": "Le"}.get(op, op), y[1], x[1])
-                if x == ("len",) and is_k(y):
-                    return self.cmp_len(op, y[1])
-                if is_k(x) and y == ("len",):
-                    return self.cmp_len({"Lt": "Gt", "Le": "Ge", "Gt": "Lt", "Ge": "Le"}.get(op, op), x[1])
+                if (x == ("len",) and is_k(y)) or (is_k(x) and y == ("len",)):
+                    k_, op_ = (y[1], op) if x == ("len",) else (x[1], {"Lt": "Gt", "Le": "Ge", "Gt": "Lt", "Ge": "Le"}.get(op, op))
+                    if k_ >= 1 and self.first != "EMPTY" and op_ == "Gt":
+                        return ("more?",)       # `i < len` for a position after the first: whether another byte follows is not known -- the loop is summarised at the branch
+                    return self.cmp_len(op_, k_)
+                if is_k(x) and is_k(y):
+                    return {"Lt": x[1] < y[1], "Le": x[1] <= y[1], "Gt": x[1] > y[1], "Ge": x[1] >= y[1], "Eq": x[1] == y[1], "Ne": x[1] != y[1]}[op]
                 if op in ("Eq", "Ne") and isinstance(x, bool) and isinstance(y, bool):
                     return (x == y) if op == "Eq" else (x != y)
                 raise Unknown("comparison %s of %r and %r" % (op, x, y))
             if op in ("BitAnd", "BitOr") and isinstance(x, bool) and isinstance(y, bool):
                 return (x and y) if op == "BitAnd" else (x or y)
+            if op in ("Add", "AddWithOverflow", "AddUnchecked") and isinstance(x, tuple) and isinstance(y, tuple) and x[0] == y[0] == "charconst" and 0 <= x[1] + y[1] < 1 << 32:
+                r_ = ("charconst", x[1] + y[1])        # a byte index being advanced
+                return ("tuple", [r_, False]) if op == "AddWithOverflow" else r_
             raise Unknown("binop %s" % op)
         if k == "unop":
             x = self.operand(b, env, rv["ops"][0])
@@ -385,6 +430,8 @@ class Interp:
             return args[0]
         if m("slice::is_empty") and args[0] == ("bytes",):
             return self.first == "EMPTY"
+        if (m("slice::len") and args[0] == ("bytes",)) or ((m("str::len") or m("String::len")) and args[0] == ("str",)):
+            return ("len",)
         if m("slice::iter") and args[0] == ("bytes",):
             return Chars()
         if m("str::chars"):
